@@ -462,10 +462,16 @@ func judge(p *Program, knownGap bool) (msg string, cell string, v Verdict, cr ch
 		if len(cr.Other) > 0 {
 			return "", "bad/other-error-only", v, cr
 		}
+		if knownLoopHalt && p.matchesLoopHaltUnsoundness() && allDead(v.Bad) {
+			return "", "bad/accepted-FS28", v, cr
+		}
 		return fmt.Sprintf("checker ACCEPTS a program with a linearity violation: %s", strings.Join(v.Bad, "; ")), "bad/accepted", v, cr
 	case !v.IsBad() && rejected:
 		if knownGap && p.matchesLoopJumpGap() {
 			return "", "good/rejected-FS24", v, cr
+		}
+		if knownNestedReturnGap && p.matchesNestedReturnGap() && onlyLoss(cr.Resource) {
+			return "", "good/rejected-FS27", v, cr
 		}
 		if knownHaltBranchGap && p.matchesHaltBranchGap() {
 			return "", "good/rejected-FS26", v, cr
@@ -484,7 +490,16 @@ func judge(p *Program, knownGap bool) (msg string, cell string, v Verdict, cr ch
 	}
 }
 
-var knownHaltGap, knownHaltBranchGap bool
+var knownHaltGap, knownHaltBranchGap, knownNestedReturnGap, knownLoopHalt bool
+
+func allDead(reasons []string) bool {
+	for _, r := range reasons {
+		if !strings.HasPrefix(r, "dead:") {
+			return false
+		}
+	}
+	return len(reasons) > 0
+}
 
 func onlyLoss(errs []string) bool {
 	for _, e := range errs {
@@ -573,6 +588,28 @@ func TestC03(t *testing.T) {
 		"oracle finds a violation and no error at all for linear programs. Non-trivial: ≥ 2 resources, ≥ 1 branch or loop, nesting depth ≥ 2. Distinct by program text.")
 	knownGap := rec.Known("FS24")
 	knownHaltGap = rec.Known("FS25") && evid.ReplayFile() == ""
+	knownLoopHalt = rec.Known("FS28") && evid.ReplayFile() == ""
+	if knownLoopHalt {
+		knownLoopHalt = false
+		m, _, _, _ := judge(&Program{Body: []Stmt{
+			{K: "new", V: "q", T: "R", Let: true},
+			{K: "while", A: []Stmt{{K: "destroy", V: "q"}}},
+			{K: "panic"},
+		}}, false)
+		knownLoopHalt = true
+		rec.ReportKnown("FS28", m != "")
+	}
+	knownNestedReturnGap = rec.Known("FS27") && evid.ReplayFile() == ""
+	if knownNestedReturnGap {
+		knownNestedReturnGap = false
+		m, _, _, _ := judge(&Program{Body: []Stmt{
+			{K: "new", V: "q", T: "R", Let: true},
+			{K: "if", E: true, A: []Stmt{{K: "if", E: true, A: []Stmt{{K: "destroy", V: "q"}, {K: "return"}}, B: []Stmt{{K: "destroy", V: "q"}, {K: "return"}}}},
+				B: []Stmt{{K: "destroy", V: "q"}}},
+		}}, false)
+		knownNestedReturnGap = true
+		rec.ReportKnown("FS27", m != "")
+	}
 	knownHaltBranchGap = rec.Known("FS26") && evid.ReplayFile() == ""
 	if knownHaltBranchGap {
 		knownHaltBranchGap = false
@@ -662,6 +699,12 @@ func TestC03(t *testing.T) {
 		}
 		if cell == "good/rejected-FS24" {
 			rec.Excluded("FS24")
+		}
+		if cell == "bad/accepted-FS28" {
+			rec.Excluded("FS28")
+		}
+		if cell == "good/rejected-FS27" {
+			rec.Excluded("FS27")
 		}
 		if cell == "good/rejected-FS26" {
 			rec.Excluded("FS26")
